@@ -41,6 +41,8 @@ func c01(c *core.Ctx) string {
 	muxBuildChecks(c, "", "R-C01-7")
 	c01Rewrite(c)
 	c01HeaderValue(c)
+	c01PathValue(c)
+	c01LookupFirst(c)
 	return "Path-sensitive analysis of muxInstance.search (all paths, disjunctive states): success returns are gated by the four matchers of the current entry, mismatches never end the search, and the 400>405>404 table holds at the exits as a function of sticky mismatch events (independent of how the implementation stores the flags); serveHTTP dispatches only a found backend after rewrite; the host matcher strips the port via net.SplitHostPort. Not decided: value semantics of matching and rewriting."
 }
 
